@@ -367,4 +367,31 @@ func runC13(c *Ctx) {
 	}
 	// the delete must be unconditional w.r.t. anything but membership: dominated only by the membership test
 	r.Add(core.Obligation{Rule: "hunt-admin", Key: "hunt-admin functions analysed", Func: "-", Status: core.Proved, Basis: "StartHunt, StopHunt, spoofLoop, ProcessPacket found"})
+	// StopHunt removes the entry under the key StartHunt inserted it with
+	{
+		start := c.P.Method("handlers/arp_spoofer", "Handler", "StartHunt")
+		stop := c.P.Method("handlers/arp_spoofer", "Handler", "StopHunt")
+		ins, del := "", ""
+		if start != nil {
+			core.EachInstr(start, func(i ssa.Instruction) {
+				if mu, ok := i.(*ssa.MapUpdate); ok && strings.HasSuffix(norm(mu.Map), "huntList") {
+					ins = norm(mu.Key)
+				}
+			})
+		}
+		if stop != nil {
+			core.EachInstr(stop, func(i ssa.Instruction) {
+				if call, ok := isBuiltinCall(i, "delete"); ok && strings.HasSuffix(norm(call.Call.Args[0]), "huntList") {
+					del = norm(call.Call.Args[1])
+				}
+			})
+		}
+		st := core.Proved
+		if ins == "" || del == "" || ins != del {
+			st = core.Violated
+		}
+		r.Add(core.Obligation{Rule: "hunt-admin", Key: "hunt-admin StopHunt deletes the key StartHunt inserted", Func: "(*arp_spoofer.Handler).StopHunt", Status: st,
+			Basis: "insert key = delete key = " + ins, Detail: fmt.Sprintf("StartHunt inserts under %q but StopHunt deletes %q: a target whose other attributes changed since StartHunt is never removed and its spoof loop never ends", ins, del)})
+	}
+
 }
